@@ -1,6 +1,6 @@
 (* Extraction of the dom engine (C15).  Only ExtrOcamlBasic is used. *)
 Require Extraction.
 Require Import ExtrOcamlBasic.
-Require Import Model.Base Model.Dom Spec.DomSpec.
+Require Import Model.Base Model.Dom Spec.DomSpec Spec.DomFast.
 Separate Extraction Base.base_roots Base.outcome Dom.edges_of_code Dom.id_order Dom.rev_order Dom.rot_order
-  DomSpec.run_mirror DomSpec.run_spec.
+  DomSpec.run_mirror DomSpec.run_spec DomFast.run_rooted.
